@@ -44,6 +44,10 @@ type Node struct {
 	Close bool `json:"close,omitempty"`
 	// CErr: the cleanup of an unwind-protect signals an error after its marker
 	CErr bool `json:"cerr,omitempty"`
+	// ConstVar: the stream variable of a with-open-file names a constant: the
+	// form fails when it binds the variable, after the file has been opened
+	// (seeded change C07-o1: the close registered only after the binding)
+	ConstVar bool `json:"const_var,omitempty"`
 	// HErr: the on-recover form of a recover signals an error of this kind
 	// itself (seeded change C07-n2: a second failure that loses its class)
 	HErr string `json:"herr,omitempty"`
@@ -344,7 +348,9 @@ func (g *genCtx) node(depth int) Node {
 		return n
 	case x < 62:
 		g.files++
-		return Node{K: "file", ID: id, Kids: g.kids(depth-1, 2), Close: g.r.Pct(25)}
+		n := Node{K: "file", ID: id, Kids: g.kids(depth-1, 2), Close: g.r.Pct(25)}
+		n.ConstVar = g.r.Pct(10)
+		return n
 	case x < 67:
 		return Node{K: "ignore", ID: id, Kids: g.kids(depth-1, 2)}
 	case x < 71:
@@ -764,6 +770,11 @@ func (n *Node) render(dir string, b *strings.Builder) {
 			// a second write and the explicit close follow the body
 			tail = fmt.Sprintf(" (format f%d \"line~%%\") (sim-emit \"wrote\" %d)%s", n.ID, n.ID, tail)
 		}
+		if n.ConstVar {
+			// the variable is a constant: binding it fails - with the file open
+			fmt.Fprintf(b, "(progn (sim-emit \"signal\" \"constvar\") (with-open-file (c07-const-stream %q :direction :output :if-exists :append :if-does-not-exist :create) (sim-emit \"opened\" %d) %s))", path, n.ID, all())
+			break
+		}
 		// without Close the body is the last thing in the form, so that an
 		// exit in its last position leaves through with-open-file
 		fmt.Fprintf(b, "(with-open-file (f%d %q :direction :output :if-exists :append :if-does-not-exist :create) (sim-emit \"opened\" %d) (format f%d \"line~%%\") (sim-emit \"wrote\" %d) %s%s)",
@@ -868,6 +879,15 @@ func calibrate() {
 		errClass["interrupt"] = r.Cond
 	}
 	errClass["cleanup"] = errClass["simple"]
+	{
+		// a with-open-file whose stream variable is a constant
+		lispsim.Eval(lispsim.Read("(defconstant c07-const-stream 1)"), slip.NewScope())
+		tmp := filepath.Join(os.TempDir(), fmt.Sprintf("c07-calib-%d.txt", os.Getpid()))
+		r := lispsim.Eval(lispsim.Read(fmt.Sprintf("(with-open-file (c07-const-stream %q :direction :output :if-exists :append :if-does-not-exist :create) 1)", tmp)), slip.NewScope())
+		_ = os.Remove(tmp)
+		errClass["constvar"] = r.Cond
+		errMsg["constvar"] = r.Msg
+	}
 	// warm lazily initialised interpreter state
 	lispsim.Eval(lispsim.Read(`(let ((m (make-mutex))) (block b (tagbody (unwind-protect (with-mutex-lock m (ignore-errors (error "x"))) 1) (go e) e) (dolist (x '(1)) (dotimes (i 1) (cond (t (when t (funcall (lambda (a) a) 1)))))) (return-from b 1)))`), slip.NewScope())
 }
@@ -1520,6 +1540,11 @@ func (e *engine) Shrink(raw json.RawMessage) (out []json.RawMessage) {
 		if n.HErr != "" {
 			nn := cloneNode(*n)
 			nn.HErr = ""
+			emit(replace(path, nn))
+		}
+		if n.ConstVar {
+			nn := cloneNode(*n)
+			nn.ConstVar = false
 			emit(replace(path, nn))
 		}
 		for i := range n.Kids {
